@@ -108,10 +108,14 @@ func RunReplaySharded(t *testing.T, ad graph.Adapter, root sdk.Context, shardKey
 		ExploreDepth: envInt("VERIF_EXPLORE", 0), ExploreBudget: envInt("VERIF_EXPLORE_BUDGET", 2000), MaxDeviations: envInt("VERIF_MAXDEV", 3), TraceOut: out,
 		Shard: map[bool]int{true: shard, false: 0}[byState], Shards: map[bool]int{true: shards, false: 1}[byState], RejSample: envInt("VERIF_REJ_SAMPLE", 0), Seed: int64(envInt("VERIF_SEED", 1)), KeepOkTraces: 0,
 	})
+	byOp := st.SortedOps()
+	if byOp == nil {
+		byOp = []string{} // a shard whose share of the alphabet is empty
+	}
 	res := map[string]any{
 		"graph_states": len(g.Out), "graph_ok_edges": g.N, "alphabet": full, "alphabet_here": len(g.Alphabet),
 		"states": st.States, "edges": st.Edges, "ok": st.OkEdges, "rej": st.RejEdges, "deviations": st.Deviations,
-		"extra_steps": st.ExtraSteps, "by_op": st.SortedOps(), "samples": st.Samples, "first_deviation": st.FirstDeviation,
+		"extra_steps": st.ExtraSteps, "by_op": byOp, "samples": st.Samples, "first_deviation": st.FirstDeviation,
 		"depth": st.Depth, "frontier": st.Frontier, "graph_expanded": len(g.Expanded),
 	}
 	if err != nil {
